@@ -12,7 +12,7 @@ All statements hold for every tree / line list / expression (no bound on length 
 -/
 namespace RsslVerif.Thm.C11
 open RsslVerif.Gen.CondTables RsslVerif.Model.CondExpr RsslVerif.Model.CondChain
-open RsslVerif.Spec.CPre RsslVerif.Lemmas.CondChain
+open RsslVerif.Spec.CPre RsslVerif.Lemmas.CondChain RsslVerif.Lemmas.CondExpr
 
 /-! ## 1. the extracted tables are the specified ones -/
 
@@ -175,5 +175,82 @@ theorem dead_elif_is_evaluated :
       (.cons (.cond (.ifc [.LiteralInt 1]) .nil (.elif bad .nil .endif)) .nil)).toOption
       = some ([], []) := by
   decide
+
+/-! ## 4. condition values equal the reference evaluation over unsigned 64-bit integers -/
+
+/-- Tie to the source: `BinOp::apply` is the C operator semantics on `u64`; every operator is recognised
+    by `parse_op` of exactly the level the C grammar gives it (relational < equality < `&&` < `||`, four
+    binary levels) and of no other level; `!` negates; the leaf arms give literals their value, `true` 1,
+    `false` 0, every identifier 0, open a parenthesis on `(` and reject everything else. -/
+theorem cond_tables_agree :
+    (∀ (op : Op) a b, (genOp op).apply a b = op.sem a b) ∧
+    (∀ (op : Op) X, (∀ r, X ≠ .Equals :: r) → opsAt op.level (op.toks ++ X) = some (genOp op, X)) ∧
+    (∀ (op : Op) j, j ≠ op.level → ∀ X, opsAt j (op.toks ++ X) = none) ∧
+    numLevels = 4 ∧ notTok = .ExclamationPoint ∧ closeTok = .RightParen ∧
+    (∀ v, notApply v = b2u (v == 0)) ∧ (∀ v, truthy v = (v != 0)) ∧
+    (∀ v, leafKind (.LiteralInt v) = .value v) ∧ (∀ v, leafKind (.LiteralIntUnsigned32 v) = .value v) ∧
+    leafKind .True = .value 1 ∧ leafKind .False = .value 0 ∧ (∀ x, leafKind (.Id x) = .value 0) ∧
+    leafKind .LeftParen = .paren ∧
+    (∀ t, (∀ v, t ≠ .LiteralInt v) → (∀ v, t ≠ .LiteralIntUnsigned32 v) → t ≠ .True → t ≠ .False →
+      (∀ x, t ≠ .Id x) → t ≠ .LeftParen → leafKind t = .fail) := by
+  refine ⟨apply_eq_sem, opsAt_own, opsAt_other, rfl, rfl, rfl, notApply_eq, truthy_eq,
+    fun _ => rfl, fun _ => rfl, rfl, rfl, fun _ => rfl, rfl, ?_⟩
+  intro t h1 h2 h3 h4 h5 h6
+  cases t <;> simp_all [leafKind]
+
+/-- The model parser is total: at the fuel `parseCond` supplies, the fuelled recursion never runs out
+    (so every token list is either parsed or rejected, and fuel is unobservable). -/
+theorem cond_parser_total (ts : List CTok) : pLvl (fuelFor ts) numLevels ts ≠ .oof :=
+  pLvl_fuel_enough ts
+
+/-- **Main theorem (condition values).**  For every condition syntax tree `e` — any nesting of
+    `|| && == != < <= > >= !`, parentheses (necessary or redundant), `defined X` / `defined(X)`, literals
+    (plain or `u`-suffixed), `true`/`false`, macro names and unknown identifiers — printed with exactly
+    the parentheses the C grammar requires, and every macro table `σ` in which `e` is well-formed (each
+    macro used as an operand has a one-literal body): macro substitution followed by the
+    precedence-climbing parser accepts the whole line and yields the truth value of the reference
+    evaluation over unsigned 64-bit integers.
+    (Macros with several body tokens are textual substitution in C as well; they are outside this
+    tree-level statement and are covered by the correspondence run only.) -/
+theorem cond_parse_eval (σ : Env) (e : Expr) (hwf : e.WellFormedIn σ) :
+    condValue σ (print 4 e) = .ok (evalU64 σ e != 0) :=
+  condValue_print σ e hwf
+
+/-- the macro-free instance, on the parser alone -/
+theorem cond_parse_eval_closed (e : Expr) (hc : Closed e) :
+    parseCond (print 4 e) = some (evalU64 [] e != 0) := by
+  rw [parseCond_print e hc, truthy_eq]
+
+/-- Non-vacuity: a depth-5 condition mixing all four binary levels, both associativity-sensitive shapes
+    (`a - (b - c)`-like right nesting that needs parentheses, left nesting that does not), `!`, `defined`
+    in both spellings, a macro operand, an unknown identifier and operands up to 2^64-1 is well-formed,
+    and the theorem's two sides are the concrete value `true`. -/
+example :
+    let σ : Env := [("A", [.LiteralInt 5]), ("B", [.LiteralIntUnsigned32 0])]
+    let e : Expr :=
+      .bin .lor
+        (.bin .land (.bin .eq (.name "A") (.bin (.lt .Token) (.lit 2 false) (.lit 18446744073709551615 false)))
+                    (.not (.defined "C" true)))
+        (.bin .ge (.bin .le (.name "U") (.bin .lor (.name "B") (.defined "A" false)))
+                  (.paren (.bin .ne (.lit 4294967296 false) (.bin (.gt .Whitespace) .tru .fls))))
+    e.WellFormedIn σ ∧ condValue σ (print 4 e) = .ok true ∧ evalU64 σ e = 1 := by
+  refine ⟨⟨?_, ?_⟩, by decide, by decide⟩
+  · show ∀ x ∈ ["A", "U", "B"], _
+    intro x hx
+    simp only [List.mem_cons, List.mem_nil_iff, or_false] at hx
+    rcases hx with rfl | rfl | rfl
+    · exact Or.inr ⟨_, 5, rfl, rfl⟩
+    · exact Or.inl rfl
+    · exact Or.inr ⟨_, 0, rfl, rfl⟩
+  · show ∀ x ∈ ["A", "C", "U", "B", "A"], x ≠ "defined"
+    decide
+
+/-- A condition without macro operands is well-formed in every macro table; in particular the
+    hypothesis `ItemsElifTotal condValue` of `automaton_refines_tree` holds for every tree whose `#elif`
+    conditions are printed trees over literals, `defined`, `!` and the binary operators. -/
+theorem total_of_no_operands (e : Expr) (h1 : e.operandNames = []) (h2 : ∀ x ∈ e.names, x ≠ "defined") :
+    Total condValue (print 4 e) := by
+  intro m
+  exact ⟨_, cond_parse_eval m e ⟨by simp [h1], h2⟩⟩
 
 end RsslVerif.Thm.C11
